@@ -194,14 +194,17 @@ func (c *w1Client) Do(ctx context.Context, network string, address string, req *
 	}
 	// a unique sub-millisecond jitter per message keeps simulator events off second boundaries and
 	// off each other's instants
-	jitter := time.Duration(1000 + amount(w1SaltDelayReqAmt+1000, 899000)) // nanoseconds
+	// Request/response latencies are an EVEN number of nanoseconds; the moment at which a client-side
+	// deadline takes effect is shifted by an ODD number (see below), so the two can never share an instant.
+	jitter := time.Duration(2 * (500 + amount(w1SaltDelayReqAmt+1000, 450000))) // nanoseconds
+	cancelJitter := time.Duration(1001 + 2*amount(w1SaltDelayReqAmt+3000, 450000))
 	dropReq := hit(w1SaltDropReq, f.dropReq)
 	reqDelay := jitter
 	if hit(w1SaltDelayReq, f.delay) {
 		reqDelay += w1DelayAmount(amount(w1SaltDelayReqAmt, 1000))
 		w.faultLocked("net_delay_request")
 	}
-	call.respDelay = jitter / 2
+	call.respDelay = (jitter / 4) * 2
 	if hit(w1SaltDelayResp, f.delay) {
 		call.respDelay += w1DelayAmount(amount(w1SaltDelayRespAmt, 1000))
 		w.faultLocked("net_delay_response")
@@ -216,7 +219,7 @@ func (c *w1Client) Do(ctx context.Context, network string, address string, req *
 		dupCall.conn = &w1Conn{w: w, call: dupCall}
 		w.faultLocked("net_duplicate_request")
 	}
-	detect := time.Duration(2000+amount(w1SaltDetect, 13000)) * time.Millisecond
+	detect := time.Duration(2000+amount(w1SaltDetect, 13000))*time.Millisecond + jitter
 	if dropReq {
 		w.faultLocked("net_drop_request")
 		w.recLocked(w1Rec{typ: w1RecNetDrop, agent: inst.agent, agentGen: inst.gen, replica: c.replica, kind: kind, T: T, attempt: call.attempt, note: "request"})
@@ -240,8 +243,14 @@ func (c *w1Client) Do(ctx context.Context, network string, address string, req *
 	select {
 	case res = <-call.ch:
 	case <-ctx.Done():
+		// Client deadlines lie on the agent's own grid: a keep-alive's deadline is an exact second
+		// boundary, the very instant at which the aggregators' tickers finish inserts and answer long
+		// polls. Whether the answer or the cancellation wins there would be a goroutine race. The
+		// cancellation therefore takes effect a unique odd number of nanoseconds later (what a cancel
+		// packet's latency does in reality); by then everything of the boundary instant has settled.
+		time.Sleep(cancelJitter)
 		w.mu.Lock()
-		if call.done { // an outcome was decided at this very instant: it wins (deterministically)
+		if call.done { // an outcome was decided earlier in fake time: it wins
 			w.mu.Unlock()
 			res = <-call.ch
 			break
